@@ -5,7 +5,7 @@
    errors rests on the per-statement order of checks in Eval.v (all checks before the first write), of
    which the assignment case is proved in C05/C08; REPL-versus-file equality and the echo forms are
    compared with the implementation on split programs and on histories with failing entries interleaved. *)
-From PE2 Require Import Run Lemmas_Repl.
+From PE2 Require Import Run Lemmas_Repl Eval Lemmas_Out Lemmas_ConstLogic Lemmas_ConstThm.
 
 Theorem C12_session_survives_failing_entry : forall ped lim fuel k s s1 code d s3 diags misc,
   get_line (str_of_string "> ") s = (code, true, s1) -> plain_entry code ->
@@ -30,3 +30,19 @@ Print Assumptions C12_lexically_wrong_entry_no_effect.
 
 Example C12_plain_entry_example : plain_entry (str_of_string "x <- 5") /\ ~ plain_entry (str_of_string "IF x THEN").
 Proof. split; [unfold plain_entry; vm_compute; repeat split; congruence|]. unfold plain_entry. vm_compute. intros [_ [_ [_ [_ H]]]]. discriminate. Qed.
+
+(* an entry -- whatever its text, accepted or rejected by lexer or parser, successful or failing at run time half-way through --
+   neither removes nor retypes anything established before it: every variable that existed still exists with its name, type,
+   CONSTANT flag and owner, every (protected) constant has its value, every array is the same array; and the state it leaves
+   satisfies the heap invariant again, so the same holds for the next entry.  (Program logic of Lemmas_ConstLogic.v.) *)
+Theorem C12_entry_keeps_what_was_established : forall ped lim fuel repl src root s, Inv s ->
+  let s' := snd (run_source ped lim fuel repl src root s) in
+  (forall id cl, nm_get id (s_cells s) = Some cl -> exists cl', nm_get id (s_cells s') = Some cl' /\ same_meta cl cl') /\
+  (forall id cl, nm_get id (s_cells s) = Some cl -> protected_cell s cl -> nm_get id (s_cells s') = Some cl) /\
+  (forall id a, nm_get id (s_arrs s) = Some a -> nm_get id (s_arrs s') = Some a).
+Proof. exact entry_keeps_variables_constants_arrays. Qed.
+Print Assumptions C12_entry_keeps_what_was_established.
+
+Theorem C12_entry_keeps_the_invariant : forall ped lim fuel repl src root s, Inv s -> Inv (snd (run_source ped lim fuel repl src root s)).
+Proof. intros ped lim fuel repl src root s H. exact (proj1 (run_source_keeps ped lim fuel repl src root s H)). Qed.
+Print Assumptions C12_entry_keeps_the_invariant.
